@@ -37,7 +37,8 @@ DataAtoms == {
 ConvAtoms == {
     [A("cdata") EXCEPT !.tok = "AA", !.conv = "a"], [A("cdata") EXCEPT !.tok = "AA", !.conv = "b"],
     [A("sdata") EXCEPT !.tok = "BB", !.conv = "a"], [A("cdata") EXCEPT !.tok = "CC", !.conv = "a"] }
-SubAtoms == {[A("sub_port") EXCEPT !.n = 1000], [A("sub_id") EXCEPT !.name = "tag/x"]}
+\* (cport 9999 does not occur: a sub-query without any result, next to alternatives that do not depend on it)
+SubAtoms == {[A("sub_port") EXCEPT !.n = 1000], [A("sub_id") EXCEPT !.name = "tag/x"], [A("sub_port") EXCEPT !.n = 9999]}
 At(a)     == [op |-> "atom", a |-> a]
 Not(x)    == [op |-> "not", x |-> x]
 Bin(o, x, y) == [op |-> o, x |-> x, y |-> y]
